@@ -105,9 +105,12 @@ func (w *PackWriter) Write(p []byte) (int, error) {
 
 // Close closes all the file descriptors and save the final packfile, if nothing
 // was written, the tempfiles are deleted without writing a packfile.
-func (w *PackWriter) Close() error {
+func (w *PackWriter) Close() (err error) {
 	defer func() {
-		if w.Notify != nil && w.writer != nil && w.writer.Finished() {
+		// Publish the index only when the pack really is in place: after a
+		// failed save the pack file does not exist, and an index announcing
+		// it would shadow loose or other packed copies of its objects.
+		if err == nil && w.Notify != nil && w.writer != nil && w.writer.Finished() {
 			w.Notify(w.checksum, w.writer)
 		}
 
